@@ -3,6 +3,7 @@ package c19
 import (
 	"fmt"
 	"sort"
+	"strconv"
 	"strings"
 
 	"github.com/zclconf/go-cty/cty"
@@ -208,6 +209,25 @@ func genPSIn(t *rapid.T) PSIn {
 					pool[i] = d
 				}
 			}
+		}
+	}
+	if rapid.IntRange(0, 5).Draw(t, "family") == 3 {
+		// a family of 6..10 siblings that differ only in their last key: they
+		// share one hash bucket of the set, whose slice then has spare
+		// capacity and is extended, cut and copied by the steps below
+		base := genPSPath(t, false)
+		if len(base) > 2 {
+			base = base[:2]
+		}
+		k := rapid.IntRange(6, 10).Draw(t, "nsiblings")
+		strs := rapid.Bool().Draw(t, "strkeys")
+		pool = pool[:0]
+		for i := 0; i < k; i++ {
+			last := keyStep(spec.KnownNum(spec.NInt(int64(i))))
+			if strs {
+				last = keyStep(spec.KnownStr("k" + strconv.Itoa(i)))
+			}
+			pool = append(pool, append(append([]PStep(nil), base...), last))
 		}
 	}
 	pick := func() []PStep {
